@@ -2,6 +2,7 @@ package rules
 
 import (
 	"fmt"
+	"go/token"
 	"go/types"
 	"strings"
 
@@ -316,6 +317,50 @@ func runC04(p *core.Prog, r *core.Report, tier string) {
 		}
 	}
 	r.Floor("C04.j fills of per-validator arrays in loops", nFill, 3)
+
+	// (m) within one pass of the filling loop an array's element is read only after it has been stored: a value worked
+	// out from a sibling array's element (the committee size from the committee index) must not see the zero that is
+	// there before the store
+	nUBF := 0
+	for _, f := range p.FuncsIn(attRel) {
+		stores := map[ssa.Value][]*ssa.Store{} // make -> indexed stores
+		core.EachInstr(f, func(in ssa.Instruction) {
+			if st, ok := in.(*ssa.Store); ok {
+				if ia, ok := st.Addr.(*ssa.IndexAddr); ok {
+					if mk, ok := ia.X.(*ssa.MakeSlice); ok {
+						if _, ok := core.RangeIndex(ia.Index); ok {
+							stores[mk] = append(stores[mk], st)
+						}
+					}
+				}
+			}
+		})
+		core.EachInstr(f, func(in ssa.Instruction) {
+			ld, ok := in.(*ssa.UnOp)
+			if !ok || ld.Op != token.MUL {
+				return
+			}
+			ia, ok := ld.X.(*ssa.IndexAddr)
+			if !ok {
+				return
+			}
+			mk, ok := ia.X.(*ssa.MakeSlice)
+			if !ok || len(stores[mk]) == 0 {
+				return
+			}
+			for _, st := range stores[mk] {
+				sia := st.Addr.(*ssa.IndexAddr)
+				if sia.Index != ia.Index {
+					continue // another position (a later loop reading what an earlier one filled)
+				}
+				nUBF++
+				okOrder := core.InstrDominates(st, ld)
+				r.Check(okOrder, "C04.m", fmt.Sprintf("%s|read-after-fill|%s#%d", core.FnKey(f), ds.D(mk).String(), nUBF), p.Pos(ld.Pos()), "the element is read after this pass has stored it",
+					"the element of this pass is read before it is stored: what is derived from it (the committee size looked up under the committee index) is derived from the zero value — committee 0")
+			}
+		})
+	}
+	r.Floor("C04.m reads of elements filled in the same pass", nUBF, 1)
 
 	// (k) in the signer the per-validator data arrays are read at the position of the validator being signed for, never
 	// at a fixed position (one root built from entry 0 and signed by every account)
